@@ -11,6 +11,8 @@ CONSTANTS
   MaxElems = 12
   TakeAll = FALSE
   Mutant = "none"
+INVARIANT ContainerInv
+INVARIANT LocatedInv
 INVARIANT Sizes
 INVARIANT IndexPartition
 INVARIANT EvalOrder
